@@ -143,6 +143,11 @@ def gen_cases(rng, tier):
         yield {"hb": True, "ctor": c, "seed": rng.randrange(10 ** 9), "n_workers": rng.randint(1, 5),
                "max_events": 80 if tier == "quick" else 200, "style": rng.choice(["grid", "grid", "ties"]),
                "checkpointing": rng.random() < 0.5, "p_fail": rng.choice([0, 0.03])}
+    # RUSH with offline evaluations of earlier tasks (transfer learning): the hurdle configurations it starts from
+    for _ in range(10 if tier == "quick" else 120):
+        yield {"rush_tl": True, "seed": rng.randrange(10 ** 9), "n_tasks": rng.randint(1, 3), "n_hp": rng.randint(2, 7),
+               "n_seeds": rng.randint(1, 3), "n_fid": rng.choice([1, 2, 3, 5]), "k": rng.randint(1, 3),
+               "type": rng.choice(["stopping", "promotion"]), "sched_seed": rng.randrange(1000)}
     # PBT pairs with model lines (appended last: the cases above stay the same for a seed)
     for _ in range(25 if tier == "quick" else 300):
         yield dict(pbt.gen_case(rng, tier), pbt=True, twin=True)
@@ -209,9 +214,56 @@ def run_status(spec):
     return {"lines": [], "monitor": mon, "meta": {"hist": {"pair:tuning-status": 1}, "nontrivial": len(rows) >= 2}}
 
 
+def run_rush_tl(spec):
+    """RUSHScheduler built from offline evaluations of earlier tasks: mode min on f versus mode max on -f (offline evaluations
+    negated as well) start from the same hurdle configurations and give the same first suggestions"""
+    import random
+    import numpy as np
+    import pandas as pd
+    from syne_tune.config_space import randint, uniform
+    from syne_tune.optimizer.schedulers.transfer_learning import TransferLearningTaskEvaluations
+    from syne_tune.optimizer.schedulers.transfer_learning.rush import RUSHScheduler
+    rng = random.Random(spec["seed"])
+    cs = {"a": randint(0, 50), "b": uniform(0.0, 1.0)}
+    hp_cs = dict(cs)
+    tasks = []
+    for _ in range(spec["n_tasks"]):
+        # distinct values on a 1/4096 grid (general position: the average over seeds of every configuration differs at every
+        # fidelity and between fidelities), learning curves that cross
+        hps = pd.DataFrame([{"a": rng.randint(0, 50), "b": rng.randrange(0, 1024) / 1024.0} for _ in range(spec["n_hp"])])
+        shape = (spec["n_hp"], spec["n_seeds"], spec["n_fid"], 1)
+        vals = rng.sample(range(1, 4096 * 4), shape[0] * shape[1] * shape[2])
+        tasks.append((hps, np.array(vals, dtype=float).reshape(shape) / 4096.0))
+    outs = []
+    for mode, sign in (("min", 1.0), ("max", -1.0)):
+        tl = {f"t{i}": TransferLearningTaskEvaluations(configuration_space=dict(hp_cs), hyperparameters=h.copy(),
+                                                       objectives_names=[g.METRIC], objectives_evaluations=sign * v)
+              for i, (h, v) in enumerate(tasks)}
+        topk = {t: e.top_k_hyperparameter_configurations(spec["k"], mode, g.METRIC) for t, e in tl.items()}
+        with contextlib.redirect_stdout(io.StringIO()):
+            sch = RUSHScheduler(dict(cs), transfer_learning_evaluations=tl, metric=g.METRIC, type=spec["type"], mode=mode,
+                                resource_attr=g.RES, max_t=9, num_hyperparameters_per_task=spec["k"],
+                                random_seed=spec["sched_seed"], search_options={"debug_log": False})
+            first = []
+            for i in range(spec["n_tasks"] * spec["k"] + 2):
+                sg = sch.suggest(i)
+                first.append(None if sg is None or sg.config is None else {k: sg.config[k] for k in ("a", "b")})
+        outs.append({"topk": topk, "first": first})
+    mon = []
+    if outs[0] != outs[1]:
+        key = "topk" if outs[0]["topk"] != outs[1]["topk"] else "first"
+        mon.append({"signature": "c15:pair-diverges:rush-transfer-learning",
+                    "what": f"RUSHScheduler(type={spec['type']}) from offline evaluations, mode=min on f vs mode=max on -f: {key} "
+                            f"{str(outs[0][key])[:200]} vs {str(outs[1][key])[:200]}", "detail": None})
+    return {"lines": [], "monitor": mon, "meta": {"hist": {"pair:rush-transfer-learning": 1, "rush_tl:fidelities=%d" % spec["n_fid"]: 1},
+                                                    "nontrivial": spec["n_hp"] >= 2}}
+
+
 def run_impl(spec):
     if spec.get("status"):
         return run_status(spec)
+    if spec.get("rush_tl"):
+        return run_rush_tl(spec)
     if spec.get("pbt"):
         r = pbt.run_impl(spec)
         r["driver"] = PBT_DRIVER
